@@ -49,6 +49,11 @@ def crs_pool():
         ("pyproj-3857", "3857", p3857),
         ("EPSG:32633", "32633", "EPSG:32633"),
         ("EPSG:3577", "3577", "EPSG:3577"),
+        # user-defined CRSs that no authority lists (MODIS sinusoidal, a local equal-area grid, an ellipsoid-only geographic CRS) and another spelling of the first
+        ("sinu-modis", "sinu", "+proj=sinu +lon_0=0 +x_0=0 +y_0=0 +R=6371007.181 +units=m +no_defs"),
+        ("sinu-modis-wkt", "sinu", pyproj.CRS.from_user_input("+proj=sinu +lon_0=0 +x_0=0 +y_0=0 +R=6371007.181 +units=m +no_defs").to_wkt()),
+        ("laea-custom", "laea", "+proj=laea +lat_0=52 +lon_0=20 +x_0=0 +y_0=0 +ellps=GRS80 +units=m +no_defs"),
+        ("longlat-grs80", "llgrs80", "+proj=longlat +ellps=GRS80 +no_defs"),
     ]
     # cross-check the labels with pyproj itself
     for (n1, c1, v1), (n2, c2, v2) in itertools.combinations([p for p in pool if p[1] is not None], 2):
@@ -60,7 +65,7 @@ def crs_pool():
 
 def pair_class(c1, c2) -> str:
     def k(c):
-        return "none" if c is None else "geographic" if c == "4326" else "projected"
+        return "none" if c is None else "geographic" if c in ("4326", "llgrs80") else "custom" if c in ("sinu", "laea") else "projected"
     if c1 == c2:
         return f"same:{k(c1)}"
     return f"{k(c1)}->{k(c2)}"
